@@ -71,6 +71,8 @@ type Ctx struct {
 	errVerdicts        map[ssa.Instruction]Obligation
 	errDropKey         map[ssa.Instruction]string
 	errHandleKey       map[ssa.Instruction]string
+
+	borrowFns map[*ssa.Function]int // repository functions that return a slice of a reader passed in (parameter index)
 }
 
 func NewCtx(p *load.Program) *Ctx {
